@@ -175,7 +175,12 @@ def ref_infer(v):
         if not v:
             return 'av'
         if all(isinstance(x, type(v[0])) for x in v[1:]):
-            return 'a' + ref_infer(v[0])
+            # elements of one Python class: the element type is inferred from one of them; the value is
+            # inside the claim only if every element infers the same type (else which one is used matters)
+            sigs = {ref_infer(x) for x in v}
+            if len(sigs) != 1:
+                raise TypeError('elements of one class infer different types')
+            return 'a' + sigs.pop()
         return 'av'
     if isinstance(v, tuple):
         return '(' + ''.join(ref_infer(x) for x in v) + ')'
@@ -184,9 +189,17 @@ def ref_infer(v):
             return 'a{sv}'
         items = list(v.items())
         k0, v0 = items[0]
+        ksigs = {ref_infer(k) for k, _ in items}
+        if len(ksigs) != 1:
+            raise TypeError('keys infer different types')
         if all(isinstance(x, type(v0)) for _, x in items[1:]):
-            return 'a{' + ref_infer(k0) + ref_infer(v0) + '}'
-        return 'a{' + ref_infer(k0) + 'v}'
+            # sigFromPy takes the types from the LAST pair it iterated, the documentation says "the" element:
+            # only a dict whose pairs all infer the same type is unambiguous
+            vsigs = {ref_infer(x) for _, x in items}
+            if len(vsigs) != 1:
+                raise TypeError('values of one class infer different types')
+            return 'a{' + ksigs.pop() + vsigs.pop() + '}'
+        return 'a{' + ksigs.pop() + 'v}'
     raise TypeError(v)
 
 
